@@ -302,32 +302,28 @@ Proof.
                     (match cnt with Some _ => true | None => false end)).
   { destruct cnt as [c0|]; simpl; [|reflexivity]. unfold set_count. simpl.
     replace (c0 <? 0) with false by (symmetry; apply Z.ltb_ge; exact Hc). reflexivity. }
-  rewrite Hw. unfold set_sum, convert. simpl th_err. cbv iota. simpl th_b. simpl th_count. simpl th_hasCount. simpl th_sum.
+  rewrite Hw. clear Hw. unfold set_sum, convert.
+  cbn [th_err th_b th_count th_hasCount th_sum]. cbv iota.
   fold (last_opt (fin ++ infb)).
-  destruct inf as [i|]; subst infb.
+  unfold N, expected_count, infb in *. clear N infb.
+  destruct inf as [i|].
   - (* with +Inf bucket *)
-    rewrite last_opt_snoc. simpl num_feq. cbv iota.
+    rewrite last_opt_snoc. cbn [num_feq num_eqb fst snd]. cbv iota.
     fold (last_opt (fin ++ [(PInf, i)])). rewrite last_opt_snoc.
-    assert (HN : N = i) by (unfold N, expected_count; destruct cnt; auto).
-    assert (Hcount : (match cnt with Some _ => true | None => false end) = true ->
-                     (match cnt with Some c0 => c0 | None => 0 end) = i) by (destruct cnt; [auto | discriminate]).
-    destruct cnt as [c0|]; simpl in *; subst.
-    + rewrite Z.eqb_refl, removelast_last, decumulate_snoc. unfold top. reflexivity.
-    + rewrite Z.eqb_refl, removelast_last, decumulate_snoc. unfold top. reflexivity.
+    destruct cnt as [c0|]; [subst c0|];
+      rewrite Z.eqb_refl, removelast_last, decumulate_snoc; unfold top; reflexivity.
   - (* without: the +Inf bucket is appended with the overall count *)
     rewrite app_nil_r in *.
     destruct (last_opt fin) as [[lle lc]|] eqn:EL.
     + rewrite (last_opt_finite fin (lle, lc) EL Hfin).
       assert (Htop : top fin = lc).
-      { unfold top. destruct fin as [|y r] using rev_ind; [discriminate|].
+      { unfold top. clear - EL. destruct fin as [|y r] using rev_ind; [discriminate|].
         rewrite last_opt_snoc in EL. inversion EL; subst. rewrite map_app. simpl. apply last_last. }
-      assert (HN : N = if (match cnt with Some _ => true | None => false end)
-                       then (match cnt with Some c0 => c0 | None => 0 end) else lc).
-      { unfold N, expected_count. destruct cnt; simpl; auto. }
-      rewrite <- HN. fold (last_opt (fin ++ [(PInf, N)])). rewrite last_opt_snoc, Z.eqb_refl.
-      rewrite removelast_last, decumulate_snoc. unfold top. reflexivity.
-    + apply last_opt_none in EL. subst fin. simpl.
-      assert (HN : N = match cnt with Some c0 => c0 | None => 0 end).
-      { unfold N, expected_count, top. destruct cnt; reflexivity. }
-      rewrite <- HN, Z.eqb_refl. unfold top. simpl. reflexivity.
+      destruct cnt as [c0|]; cbv iota.
+      * fold (last_opt (fin ++ [(PInf, c0)])). rewrite last_opt_snoc, Z.eqb_refl.
+        rewrite removelast_last, decumulate_snoc. unfold top. reflexivity.
+      * rewrite Htop. fold (last_opt (fin ++ [(PInf, lc)])). rewrite last_opt_snoc, Z.eqb_refl.
+        rewrite removelast_last, decumulate_snoc. unfold top. reflexivity.
+    + apply last_opt_none in EL. subst fin.
+      destruct cnt as [c0|]; cbn; rewrite ?Z.eqb_refl; unfold top; cbn; rewrite ?Z.sub_0_r; reflexivity.
 Qed.
